@@ -1,6 +1,6 @@
 """Debug helper: run one C01 case and print a unified diff of the two graphs."""
 import difflib, json, os, random, shutil, sys, tempfile
-sys.path.insert(0, "/repo"); sys.path.insert(0, "/verif")
+sys.path.insert(0, "/verif"); sys.path.insert(0, os.environ.get("VERIF_REPO", "/repo"))
 from vmon.checks import c01
 from vmon import gen, harness as H
 
